@@ -368,6 +368,7 @@ def run_shard(shard, tier, acc):
     elif shard[0] == "oddkeys":
         odd_keys(acc)
     elif shard[0] == "eqvalues":
+        equality_in_flight(acc)
         equal_values(acc)
     elif shard[0] == "wide":
         wide_entries(acc, tier)
@@ -402,6 +403,61 @@ def isolation(acc):
                 else:
                     if fresh_ != snap:
                         acc.violation({"oracle": "entries_are_independent", "where": "later parse"}, {"case": case, "observed": fresh_, "expected": snap})
+
+
+def equality_in_flight(acc):
+    """Two comparisons in flight: while `a == b` is comparing a field value, that value's own __eq__ asks the same question
+    about the same two blocks again (inline, or in a second thread it waits for) - and gets the same, structural answer:
+    for entries / strings / preambles / comments / fields that differ in something compared AFTER the value, and for equal ones."""
+    import threading
+
+    class Asking:
+        """A user value that is equal to its twin; its first comparison makes a second comparison of the two blocks."""
+
+        def __init__(self, box):
+            self.box = box
+
+        def __eq__(self, other):
+            b = self.box
+            if isinstance(other, Asking) and b.get("ask") is not None:
+                ask, b["ask"] = b["ask"], None
+                if b["threaded"]:
+                    t = threading.Thread(target=lambda: b["answers"].append(ask()))
+                    t.start()
+                    t.join()
+                else:
+                    b["answers"].append(ask())
+            return isinstance(other, Asking)
+
+        __hash__ = None
+
+    def pairs(box):
+        v = lambda: Asking(box)
+        yield "entries differing in a later field", Entry("a", "k", [Field("t", v()), Field("year", "1999")]), Entry("a", "k", [Field("t", v()), Field("year", "2000")]), False
+        yield "equal entries", Entry("a", "k", [Field("t", v()), Field("year", "1999")]), Entry("a", "k", [Field("t", v()), Field("year", "1999")]), True
+        yield "fields differing in the start line", Field("t", v(), 1), Field("t", v(), 2), False
+        yield "equal fields", Field("t", v(), 1), Field("t", v(), 1), True
+        yield "strings differing in raw", String("s", v(), 3, "raw1"), String("s", v(), 3, "raw2"), False
+        yield "equal strings", String("s", v(), 3, "raw"), String("s", v(), 3, "raw"), True
+
+    for threaded in (False, True):
+        for neg in (False, True):
+            box = {"threaded": threaded, "answers": [], "ask": None}
+            for label, a, b, same in pairs(box):
+                box["answers"] = []
+                box["ask"] = (lambda a=a, b=b: (a != b)) if neg else (lambda a=a, b=b: (a == b))
+                case = {"equality_in_flight": label, "in_another_thread": threaded, "inner_question": "!=" if neg else "=="}
+                acc.trace(2)
+                acc.case(nontrivial_key=("eq-in-flight", label, threaded, neg))
+                try:
+                    outer = a == b
+                except Exception as ex:
+                    acc.exception(ex, case, "== with a comparison in flight")
+                    continue
+                inner = box["answers"][0] if box["answers"] else None
+                want_inner = (not same) if neg else same
+                if outer is not same or (inner is not None and inner is not want_inner):
+                    acc.violation({"oracle": "equality_is_structural", "what": "a comparison in flight", "which": "outer" if outer is not same else "inner"}, {"case": case, "observed": [outer, inner], "expected": [same, want_inner]})
 
 
 def equal_values(acc):
@@ -757,6 +813,8 @@ def replay(case, acc):
         isolation(acc)
     elif "odd_key" in case:
         odd_keys(acc)
+    elif "equality_in_flight" in case:
+        equality_in_flight(acc)
     elif "equal_values" in case:
         equal_values(acc)
     elif "field_objects" in case or "field_as_value" in case:
